@@ -1,4 +1,5 @@
 import Octo.Proofs.Ss2022AuxGen
+import Octo.Proofs.Ss2022AuxUdpEih
 import Octo.Proofs.Toy
 import Octo.Props.C03
 /-!
@@ -199,5 +200,30 @@ that respects its range may return 0 for an empty payload -/
 theorem c12_padding_can_be_zero (ov : Bool) :
     ∃ E : SsTcpGen.MEnv, next_padding_length ov (XA E) [] = .ok 0 ∧ MIN_PADDING_LENGTH = 0 :=
   ⟨⟨Crypto.toy, 0, 0, 0, 0, false, 0, []⟩, by rw [next_padding_empty]; rfl, rfl⟩
+
+/-! ## the datagram identity-header chain (`aead_2022/udp.rs`: `make_eih`, `with_eih`) -/
+
+/-- C02 / C06: one identity header of a datagram = AES block, under the identity key, of BLAKE3(next key)[..16] XOR (session id ‖ packet id) -/
+theorem ext_udp_make_eih (ov : Bool) (E : SsTcpGen.MEnv) (hC : E.C.Lawful) (kind : SsTcpGen.CipherKind) (k : Ss.Kind)
+    (hk : SsTcpGen.toKind kind = some k) (he : k.supportEih = true) (ipsk ipskn sp : Bytes) (hkl : ipsk.length = k.alg.keyLen)
+    (hsp : 16 ≤ sp.length) :
+    udp_make_eih ov (XA E) kind ipsk ipskn sp (List.replicate (16 : Usize).toNat (0 : UInt8)) =
+      .ok (E.C.aesEnc ipsk (xorBytes ((E.C.blake3Hash ipskn).take 16) sp), .ok ()) :=
+  udp_make_eih_eval ov E hC kind k hk he ipsk ipskn sp hkl hsp
+
+/-- DISCHARGES `SsUdpGen.Ext.udp_with_eih` (C02 / C03 / C06): for every chain of identity keys of the cipher's key size the translated
+`with_eih` — its loop over indices, the `len - 1` / `i + 1` arithmetic and the bounds-checked `identity_keys[i]` — never panics, never
+fails, and appends exactly the model's chain `SsUdp.withEih` (header i under key i, naming key i+1, the last one naming the user key) -/
+theorem ext_udp_with_eih (ov : Bool) (E : SsTcpGen.MEnv) (hC : E.C.Lawful) (kind : SsUdpGen.CipherKind) (k : Ss.Kind)
+    (hk : SsUdpGen.toKind kind = some k) (he : k.supportEih = true) (key sp dst : Bytes) (iks : List Bytes)
+    (hlen : iks.length < 2 ^ 64) (hkl : ∀ ik ∈ iks, ik.length = k.alg.keyLen) (hsp : 16 ≤ sp.length) :
+    udp_with_eih ov (XA E) (ofUdpKind kind) key iks sp dst = (SsUdpGen.XM (udpEnv E)).udp_with_eih kind key iks sp dst := by
+  rw [udp_with_eih_eval ov E hC (ofUdpKind kind) k (by rw [toKind_ofUdp]; exact hk) he key sp dst iks hlen hkl hsp]
+  simp [SsUdpGen.XM, hk, he, udpEnv]
+example := ext_udp_with_eih true demoE demoE_lawful .Aead2022Blake3Aes128Gcm .b3aes128 rfl rfl [9] (List.replicate 16 1) [7]
+  [List.replicate 16 2, List.replicate 16 3] (by decide) (by decide) (by decide)
+
+/-- no identity keys: nothing is appended -/
+theorem c02_udp_eih_chain_empty (C : Crypto) (key sp : Bytes) : SsUdp.withEih C key sp [] = [] := rfl
 
 end Octo.Ss2022AuxGen
